@@ -292,9 +292,36 @@ fn mutate(rng: &mut SplitMix64, g: &Gen, r: &mut Req, class: u64) {
             r.ins[last] = a;
         }
         24 if r.outs.len() >= 2 => { let a = r.outs[0]; let last = r.outs.len() - 1; r.outs[last] = a; }
+        // ---- requested outputs drawn from declared graph inputs / constants / intermediates ----
+        25 => {                                                                         // graph input requested but NOT supplied
+            let a = g.inputs[rng.below(g.inputs.len() as u64) as usize];
+            r.ins.retain(|i| i.id != a);
+            if !r.outs.contains(&a) { r.outs.push(a); }
+        }
+        26 => {                                                                         // run([], [a]) / run([], [a, b])
+            r.ins.clear();
+            r.outs = g.inputs.iter().copied().take(1 + rng.below(2) as usize).collect();
+        }
+        27 if g.inputs.len() >= 2 => {                                                  // run([a], [b]) and run([a], [a, b])
+            let (a, b) = (g.inputs[0], g.inputs[1]);
+            r.ins.retain(|i| i.id == a);
+            r.outs = if rng.chance(1, 2) { vec![b] } else { vec![a, b] };
+        }
+        28 => {                                                                         // only graph inputs / constants as outputs, all supplied
+            r.outs = g.inputs.clone();
+            if let Some(c) = g.consts.first() { r.outs.push(*c); }
+        }
+        29 => {                                                                         // unsupplied graph input + an intermediate + a constant
+            let a = g.inputs[0];
+            r.ins.retain(|i| i.id != a);
+            r.outs.insert(0, a);
+            if let Some(c) = g.consts.first() { if !r.outs.contains(c) { r.outs.push(*c); } }
+        }
         _ => {}
     }
 }
+
+const N_CLASSES: u64 = 30;
 
 fn generate(seed: u64, n: usize, _tier: &str, out: &mut dyn Write) {
     let mut rng = SplitMix64(seed ^ 0x26);
@@ -304,7 +331,7 @@ fn generate(seed: u64, n: usize, _tier: &str, out: &mut dyn Write) {
     for _ in 0..n_sys {
         let g = closed_graph(&mut rng);
         let base = base_request(&mut rng, &g);
-        for class in 0..25u64 {
+        for class in 0..N_CLASSES {
             let mut cold = base.clone();
             mutate(&mut rng, &g, &mut cold, class);
             let mut warm = base.clone();
@@ -323,7 +350,7 @@ fn generate(seed: u64, n: usize, _tier: &str, out: &mut dyn Write) {
         for _ in 0..2 + rng.below(5) {
             let mut r = if rng.chance(2, 3) { base.clone() } else { base_request(&mut rng, &g) };
             for _ in 0..rng.below(3) {
-                let c = rng.below(25);
+                let c = rng.below(N_CLASSES);
                 mutate(&mut rng, &g, &mut r, c);
             }
             reqs.push(r);
